@@ -39,6 +39,12 @@ def run(pid: str, tier: str, seed: int, replay: str | None) -> int:
         rep.lean = core.lean_leg(pid, thorough=(tier == "thorough"))
         rng = random.Random(seed * 1000003 + int(pid[1:]))
         mod.run(rep, rng, tier, known)
+        if tier == "thorough":
+            # further independent rounds (fresh generator state each), same report
+            for k in range(1, int(os.environ.get("VERIF_THOROUGH_ROUNDS", "4"))):
+                if rep.violations:
+                    break
+                mod.run(rep, random.Random(seed * 1000003 + int(pid[1:]) + 7907 * k), tier, known, search=True)
         # a broken proof or correspondence is not by itself a violation: search for a failing input
         if not rep.violations and (rep.breaks or not rep.lean.get("ok")):
             budget = time.time() + (120 if tier == "quick" else 600)
@@ -51,10 +57,20 @@ def run(pid: str, tier: str, seed: int, replay: str | None) -> int:
     except Infra as ex:
         print(f"INFRASTRUCTURE property={pid}: {ex}", file=sys.stderr)
         return 2
-    except Exception:  # noqa: BLE001
-        traceback.print_exc()
-        print(f"INFRASTRUCTURE property={pid}: harness crashed", file=sys.stderr)
-        return 2
+    except Exception as ex:  # noqa: BLE001
+        tb = traceback.extract_tb(ex.__traceback__)
+        in_impl = [f for f in tb if str(core.REPO) in f.filename]
+        if not in_impl and not isinstance(ex, AttributeError):
+            traceback.print_exc()
+            print(f"INFRASTRUCTURE property={pid}: harness crashed", file=sys.stderr)
+            return 2
+        # the exception came out of the implementation (or an attribute the harness reads is gone):
+        # the tie between model and code can no longer be made - reported as a broken correspondence
+        where = f"{in_impl[-1].filename}:{in_impl[-1].lineno} in {in_impl[-1].name}" if in_impl else "harness glue"
+        rep.corr_break(f"the harness could not observe the implementation: {type(ex).__name__}: {ex} ({where})",
+                       {"traceback": traceback.format_exc()[-1500:]})
+        if not rep.lean:
+            rep.lean = {"ok": True, "theorems": [], "broken": []}
     mod.evidence(rep)
     for kid, k in sorted(rep.known_hits.items()):
         print(f"KNOWN-FINDING: property={pid} {kid} {k['what']} (seen {k['count']}x, e.g. {json.dumps(k['example'], default=str)[:300]})")
